@@ -553,6 +553,55 @@ def c_identity(ctx, case):
                              f"field {n1} of {G.src(e)} did not change but was rebuilt")
 
 
+def _tagger(base):
+    class Tagger(base):
+        def map_variable(self, expr, *a, **k):
+            return p.Variable(expr.name + "".join(str(x) for x in a) + k.get("tag", ""))
+    return Tagger
+
+
+TaggerC, TaggerP = _tagger(CachedIdentityMapper), _tagger(IdentityMapper)
+
+
+@check("C04.argflow")
+def c_argflow(ctx, case):
+    """Extra positional / keyword arguments reach the handlers with the values of THIS call, on
+    one instance called several times with the same argument names and different values."""
+    e, calls = case
+    if has_zero_cse(e):
+        return
+    names = sorted(o.name for o in occurrences(e) if isinstance(o, p.Variable))
+    for label, m in (("IdentityMapper", TaggerP()), ("CachedIdentityMapper", TaggerC())):
+        if label == "CachedIdentityMapper":
+            try:        # polynomials, rebuilt containers: not memoizable at all
+                if has_rebuilt_container(e) or any(hash(x) and False for x in G.walk(e)
+                                                    if isinstance(x, p.Expression)):
+                    continue
+            except TypeError:
+                continue
+        for i, (a, kw) in enumerate(calls):
+            ctx.case(None)
+            ctx.count("argflow_calls")
+            try:
+                out = m(e, *a, **kw)
+            except REFUSAL:
+                ctx.count("identity_refused")
+                break
+            except RecursionError:
+                raise
+            except Exception as ex:  # noqa: BLE001
+                ctx.fail("C04.argflow", case, f"argflow:raised:{type(ex).__name__}",
+                         f"{label} subclass on {G.src(e)} with {a}, {kw}: {type(ex).__name__}: {ex}")
+                break
+            suffix = "".join(str(x) for x in a) + kw.get("tag", "")
+            got = sorted(o.name for o in occurrences(out) if isinstance(o, p.Variable))
+            if got != sorted(n + suffix for n in names):
+                ctx.fail("C04.argflow", case, f"argflow:{label}:call{min(i, 1)}",
+                         f"call {i} of {calls} on one {label} subclass: handlers should have seen "
+                         f"args={a} kwargs={kw} (suffix {suffix!r}) but {G.src(e)} became {G.src(out)}")
+                break
+
+
 def _diff_count(a, b):
     if a == b:
         return 0
@@ -723,6 +772,11 @@ def workload(ctx):
                 ctx.node(type(e).__name__)
             if i < 3:
                 ctx.sample("traversal", {"tree": G.src(e), "args": args, "kwargs": kw})
+            if isinstance(e, (p.Expression, tuple)) and i % 3 == 0:
+                tags = [rng.choice(["_a", "_b", "_c"]) for _ in range(rng.randint(2, 4))]
+                calls = [(rng.choice([(), ("p",), ("q",)]), {"tag": t} if rng.random() < 0.8 else {})
+                         for t in tags]
+                ctx.run("C04.argflow", (e, calls))
             nstop = rng.choice([0, 0, 1, 2])
             ctx.run("C04.walk", (e, args, kw, tuple(rng.randrange(10**6) for _ in range(nstop))))
             ctx.run("C04.identity", (e, args, kw))
